@@ -6,3 +6,5 @@ mod arena_index;
 mod arena_seq;
 #[cfg(kani)]
 mod arena_sched;
+#[cfg(kani)]
+mod intern_seq;
